@@ -243,6 +243,33 @@ impl<SVC: Service> CloudServer<SVC> {
 
     /// Perform cleanup, deleting unnecessary data.
     async fn cleanup(&mut self) -> Result<()> {
+        // Other clients keep working while this runs, so the order of the reads matters: first
+        // the snapshots, then "latest", then the versions. Every snapshot seen here is for a
+        // version at or before the "latest" read next (a snapshot is only made for an accepted
+        // version), and all ancestors of that "latest" were uploaded before it was committed, so
+        // they are sure to appear in the version listing. Anything committed, uploaded or
+        // snapshotted after its read descends from "latest" and is left alone below. (Listing
+        // the versions first would make a version committed in between look like the end of an
+        // unknown chain, and every listed version would be deleted; listing the snapshots last
+        // would let a cleanup with an outdated "latest" delete a newer snapshot.)
+        let snapshots = {
+            let mut snapshots = HashSet::new();
+            let mut iterator = self.service.list("s-").await;
+            while let Some(res) = iterator.next().await {
+                match res {
+                    Ok(ObjectInfo { name, .. }) => {
+                        if let Some(parsed_name) = Self::parse_snapshot_name(&name) {
+                            snapshots.insert(parsed_name);
+                        }
+                    }
+                    Err(e) => return Err(e),
+                }
+            }
+            snapshots
+        };
+
+        let latest = self.get_latest().await?;
+
         // Construct a vector containing all (child, parent, creation) tuples
         let mut versions = {
             let mut versions = Vec::new();
@@ -272,7 +299,6 @@ impl<SVC: Service> CloudServer<SVC> {
         // at "latest".
         let mut rev_chain = HashMap::new();
         let mut iterations = versions.len() + 1; // For cycle detection.
-        let latest = self.get_latest().await?;
         if let Some(mut c) = latest {
             while let Some(p) = parent_of(c) {
                 rev_chain.insert(c, p);
@@ -310,30 +336,32 @@ impl<SVC: Service> CloudServer<SVC> {
             .collect();
 
         // Now, any pair not present in that chain can be deleted. However, another replica
-        // may be in the state where it has uploaded a version but not changed "latest" yet,
-        // so any pair with parent equal to latest is allowed to stay.
-        for (c, p, _) in versions {
-            if rev_chain.get(&c) != Some(&p) && Some(p) != latest {
-                self.service.del(&Self::version_name(&p, &c)).await?;
-            }
-        }
-
-        // Collect a set of all snapshots.
-        let snapshots = {
-            let mut snapshots = HashSet::new();
-            let mut iterator = self.service.list("s-").await;
-            while let Some(res) = iterator.next().await {
-                match res {
-                    Ok(ObjectInfo { name, .. }) => {
-                        if let Some(parsed_name) = Self::parse_snapshot_name(&name) {
-                            snapshots.insert(parsed_name);
-                        }
-                    }
-                    Err(e) => return Err(e),
+        // may be in the state where it has uploaded a version but not changed "latest" yet, or
+        // may have committed further versions since "latest" was read above, so any pair that
+        // descends from latest is allowed to stay. With no "latest" at all, any uploaded version
+        // may still become the first one.
+        let descends_from_latest = |mut p: VersionId| {
+            for _ in 0..=versions.len() {
+                if Some(p) == latest {
+                    return true;
+                }
+                match parent_of(p) {
+                    Some(pp) => p = pp,
+                    None => return false,
                 }
             }
-            snapshots
+            false
         };
+        let deletable: Vec<(VersionId, VersionId)> = versions
+            .iter()
+            .filter(|(c, p, _)| {
+                latest.is_some() && rev_chain.get(c) != Some(p) && !descends_from_latest(*p)
+            })
+            .map(|(c, p, _)| (*c, *p))
+            .collect();
+        for (c, p) in deletable {
+            self.service.del(&Self::version_name(&p, &c)).await?;
+        }
 
         // Find the latest snapshot by iterating back from "latest". Note that this iteration is
         // guaranteed not to be cyclical, as that was checked above.
